@@ -20,6 +20,8 @@ class RandSetDisposeVisitor(ModelVisitor):
             f.accept(self)
         for c in rs.constraints():
             c.accept(self)
+        for c in rs.soft_constraints():
+            c.accept(self)
             
     def visit_scalar_field(self, f:FieldScalarModel):
         f.dispose()
